@@ -2,6 +2,7 @@ import GrinVerif.Gen.Params
 import GrinVerif.Model.Cons
 import GrinVerif.Model.PowSize
 import GrinVerif.Model.PowDiff
+import GrinVerif.Props.C04
 /-! # C04 / C05 — the models' per-chain-type parameters are the ones in `global.rs`
 
 `Gen/Params.lean` is regenerated on every check run by `tools/gen_params.py` from
@@ -138,6 +139,27 @@ theorem header_version_table (c : CT) (h : Nat) :
     · simp only [hvEval, toCons, Cons.headerVersion]; rw [hch]
     · simp only [hvEval, toPow, Pow.headerVersion]; rw [hch]
   · rw [hm]; exact ⟨rfl, by simp [hvEval, toPow, Pow.headerVersion]⟩
+
+/-- `valid_header_version` in the source is the plain comparison with the schedule -/
+theorem valid_header_version_shape : validVersionIsScheduleEq = true := by decide
+
+/-- the model's `validHeaderVersion` is that comparison against the regenerated schedule -/
+theorem valid_header_version_table (c : CT) (h v : Nat) :
+    Cons.validHeaderVersion (toCons c) h v = true ↔ hvEval (header_version c) h = some v := by
+  rw [(header_version_table c h).1]
+  unfold Cons.validHeaderVersion
+  rw [beq_iff_eq]
+  constructor
+  · intro e; rw [e]
+  · intro e; exact (Option.some.inj e).symm
+
+/-- **an accepted header carries the version the regenerated schedule gives for its height**, on every
+chain type, for every context (parent, window, options) -/
+theorem accepted_header_version (c : CT) (ctx : Cons.Ctx) (hd : Cons.Hdr) (hc : ctx.ct = toCons c)
+    (hv : Cons.validateHeader ctx hd = .ok ()) :
+    hvEval (header_version c) hd.height = some hd.version := by
+  obtain ⟨_, prev, _, _, hver, _⟩ := GV.Props.C04.validate_header_sound ctx hd hv
+  rw [(header_version_table c hd.height).1, hver, hc]
 
 /-! ### `global::create_pow_context` -/
 
